@@ -636,6 +636,10 @@ def gen_vals(r, dtype, n, positive=False, big=False):
             return [2**53 + 1 + 2 * r.randrange(100) for _ in range(n)]
         lo = 1 if positive or dtype.startswith("uint") else -5
         vals = [r.randrange(lo, 9) for _ in range(n)]
+        if not dtype.endswith("8") and r.random() < 0.35:
+            # values whose image under an inexact factor depends on HOW it is computed (35 * 0.01 != 35 / 100):
+            # tiny integers convert exactly by every route, which hides route-dependent rounding
+            vals = [r.choice([35, 57, 113, 29, 1001, 7, 11]) for _ in range(n)]
         return [v if v != 0 else 1 for v in vals]
     pool = [0.5, 1.0, 1.5, 2.0, 2.5, 3.0, 4.0, 0.25, 7.0]
     vals = [r.choice(pool) * (1 if positive or r.random() < 0.7 else -1) for _ in range(n)]
@@ -1390,7 +1394,7 @@ def cold_eval(req):
 # special case, and a random payload hits them about once in a hundred visits.
 
 SWEEP_PAIRS = [("K", "degC"), ("degC", "K"), ("degF", "R"), ("R", "degF"), ("degC", "degF"), ("delta_degC", "K"),
-               ("m", "cm"), ("cm", "km"), ("erg", "J"), ("J", "erg"), ("N*m", "erg"), ("km/hr", "cm/s"),
+               ("m", "cm"), ("cm", "km"), ("cm", "m"), ("erg", "J"), ("J", "erg"), ("N*m", "erg"), ("km/hr", "cm/s"),
                ("code_length", "m"), ("m", "m"), ("degree", "rad"), ("dimensionless", "percent")]
 SWEEP_DTYPES = ["float64", "float32", "int64", "int16"]
 SWEEP_SHAPES = [(3,), (), (1,)]
@@ -1445,7 +1449,8 @@ def sweep_case(index):
             k *= d_
         v = (vals * (k + 1))[:k]
         if dtype.startswith("int"):
-            v = [int(x) for x in v]
+            # integers whose image under an inexact factor depends on the route (35 * 0.01 != 35 / 100)
+            v = ([35, 57, 113, 7, 29] * (k + 1))[:k] if vals is base else [int(x) for x in v]
         ops.append({"k": "mk", "dt": dtype, "shape": list(shp), "vals": v, "unit": unit, "reg": reg, "ro": False,
                     "q": len(shp) == 0})
         return sum(1 for o in ops if o["k"] in ("mk", "view")) - 1
